@@ -513,8 +513,10 @@ def run_sampler(w, start=None, via="sampler", cap=None, sampler=None, log=None, 
             got = next(it)
         except StopIteration:
             break
-        except InjectedSamplerError:
-            log.append(["raised"])  # the stream ends loudly with the injected error
+        except Exception as e:
+            if not core.caused_by(e, InjectedSamplerError):
+                raise
+            log.append(["raised"])  # the stream ends loudly with the injected error (possibly wrapped in one of the library's own)
             return log, True
         pos += 1
         if via == "sampler":
